@@ -78,6 +78,8 @@ def obligations(tier):
         for c in cfgs:
             if sk == 'sk4' and not c['rr']:
                 continue
+            if tier == 'quick' and c['udf']:
+                continue        # UDF mastering: ~2 s per path and > 100 paths (measured) -> thorough tier only
             obs.append({'name': 'C04.b/%s/%s' % (sk, skel.cfg_name(c)), 'module': __name__, 'func': 'master',
                         'params': {'sk': sk, 'cfg': c, 'minlen': 1 if sk == 'sk3' else 0},
                         'cond_timeout': 900, 'path_timeout': 200,
